@@ -295,7 +295,7 @@ func c08Gen(rt *rapid.T) c08Case {
 		r := len(shape)
 		naxes := rapid.IntRange(1, r).Draw(rt, "naxes")
 		axes := rapid.Permutation(seq(r)).Draw(rt, "axesPerm")[:naxes]
-		mode := rapid.IntRange(0, 3).Draw(rt, "mode") // 0,1: in what the library implements; 2,3: full ONNX domain
+		mode := rapid.IntRange(0, 4).Draw(rt, "mode") // 0,1: in what the library implements; 2,3: full ONNX domain; 4: exporter idioms x[a::k], x[:b:k], x[::-k]
 		starts, ends, steps := make([]int64, naxes), make([]int64, naxes), make([]int64, naxes)
 		c.steps = map[int]int64{}
 		c.lists = make([][]int, r)
@@ -305,7 +305,19 @@ func c08Gen(rt *rapid.T) c08Case {
 		anyNeg, anyClamp, anyStep, anyUnit := false, false, false, false
 		for i, a := range axes {
 			d := shape[a]
-			if mode < 2 {
+			if mode == 4 {
+				// "to the end" is spelled with a sentinel by exporters
+				k := int64(rapid.SampledFrom([]int{1, 2, 2, 3, 3, 4}).Draw(rt, "idiomStep"))
+				if rapid.IntRange(0, 3).Draw(rt, "idiomReverse") == 0 {
+					starts[i] = rapid.SampledFrom([]int64{-1, int64(d - 1), math.MaxInt64, math.MaxInt32}).Draw(rt, "idiomStartR")
+					ends[i] = rapid.SampledFrom([]int64{math.MinInt64, math.MinInt32, -int64(d) - 1, math.MinInt64 + 1}).Draw(rt, "idiomEndR")
+					steps[i] = -k
+				} else {
+					starts[i] = int64(rapid.IntRange(0, min(d-1, 3)).Draw(rt, "idiomStart"))
+					ends[i] = rapid.SampledFrom([]int64{math.MaxInt64, math.MaxInt64, math.MaxInt32, math.MaxInt64 - 1, int64(d), int64(d) + 1}).Draw(rt, "idiomEnd")
+					steps[i] = k
+				}
+			} else if mode < 2 {
 				s := rapid.IntRange(0, d-1).Draw(rt, "start")
 				e := rapid.IntRange(s+1, d).Draw(rt, "end")
 				starts[i], ends[i] = int64(s), int64(e)
